@@ -1,5 +1,7 @@
 import A2Verif.Model.Fs.Pascal
 import A2Verif.Model.Fs.Dos3x
+import A2Verif.Model.Fs.Prodos
+import A2Verif.Model.Fs.Cpm
 /-!
 # C12, file-system read paths: identification checks and the read-only queries the concrete models lack
 
@@ -255,5 +257,269 @@ the matcher (a total parameter) -/
 def glob (d : Disk) : R (List (Bytes × Nat × Nat)) × Disk := catalog d
 
 end Dos
+
+/-! ## ProDOS (`/repo/src/fs/prodos/mod.rs`, `directory.rs`) -/
+namespace Prodos
+open A2Verif.Fs.Prodos
+
+/-- outcome class of a ProDOS-model result -/
+def cls {α : Type} : R α → Cls
+  | .ok _ => .ok
+  | .error .panic => .panic
+  | .error _ => .err
+
+/-- a freshly mounted disk (`from_img`): `total_blocks = byte_capacity/512`, no bitmap buffer -/
+def fresh (r : Raw) : Disk := { raw := r, total := r.units.size, bitmap := none, bitmapBlocks := [] }
+
+/-- `buf[i]` on a `Vec<u8>`: out of range panics -/
+def byteAt (buf : Bytes) (i : Nat) : R Nat :=
+  match buf[i]? with
+  | some x => .ok x
+  | none => .error .panic
+
+def firstCharOk (c : Nat) : Bool := (65 ≤ c && c ≤ 90) || c == 46
+def nameCharOk (c : Nat) : Bool := firstCharOk c || (48 ≤ c && c ≤ 57)
+
+/-- `for i in 1..(nibs & 0x0F) { if !char_patt.contains(name[i]) { return false } }`; `name` is `[u8;15]` -/
+def volNameLoop (name : Bytes) : List Nat → R Bool
+  | [] => .ok true
+  | i :: rest =>
+    match byteAt name i with
+    | .error e => .error e
+    | .ok c => if nameCharOk c then volNameLoop name rest else .ok false
+
+/-- `Disk::test_img` (mod.rs 94–131) -/
+def testImg (r : Raw) : R Bool :=
+  match imgRead r volKeyBlock with
+  | .error _ => .ok false
+  | .ok buf =>
+    -- `KeyBlock::from_bytes(&buf)`: `Err` for a buffer shorter than the 511-byte structure
+    if buf.length < dirLen then .ok false else
+    match byteAt buf 0x29, byteAt buf 0x2A, byteAt buf 0x23, byteAt buf 0x24 with
+    | .ok t0, .ok t1, .ok b23, .ok b24 =>
+      let nibs := buf.getD 4 0
+      let name := slice buf 5 15
+      if t0 + 256 * t1 < 280 then .ok false
+      else if b23 ≠ 0x27 ∨ (b24 ≠ 0x0D ∧ b24 ≠ 0x0C) then .ok false
+      else if le16 buf 0 ≠ 0 ∨ le16 buf 2 ≠ 3 ∨ nibs / 16 ≠ 15 then .ok false
+      else
+        match byteAt name 0 with
+        | .error e => .error e
+        | .ok c0 => if !firstCharOk c0 then .ok false else volNameLoop name (rng 1 (nibs % 16))
+    | _, _, _, _ => .error .panic
+
+/-! ### the recursive directory walks (`tree_node` 973–1005, `glob_node` 927–971)
+
+`Walk` counts what the walk costs: directories entered and directory blocks read.  In the repaired code the
+first counter exists in the Rust (`visits`, compared with `total_blocks`); in the code as written it is ghost
+instrumentation.  Flags: `budget` = the repair `c12fs-prodos-directory-visit-budget` is present; `capErr` = the
+nesting-cap branch returns `Err` (as at HEAD) rather than an empty result. -/
+
+structure Walk where
+  /-- directories entered (calls of `tree_node`/`glob_node` that got past the nesting test) -/
+  visits : Nat
+  /-- directory blocks read (`get_directory`) -/
+  reads : Nat
+  deriving DecidableEq, Repr, Inhabited
+
+/-- `get_directory(iblock)` on the image (`Fs.Prodos.getDirectory` when no bitmap block is involved) -/
+def dirAt (r : Raw) (i : Nat) : R Dir :=
+  match imgRead r i with
+  | .error e => .error e
+  | .ok buf =>
+    let z := buf.getD 0 0 == 0 && buf.getD 1 0 == 0
+    .ok { kind := if i = volKeyBlock then DKind.volKey else if z then DKind.subKey else DKind.entry, bytes := buf.take dirLen }
+
+/-- `for loc in dir.entry_locations(curr) { let entry = dir.get_entry(&loc); … }` -/
+def dirEntries (d : Dir) : List Bytes := d.entryIdxs.filterMap d.getEntry
+
+/-- the entry loop: an active sub-directory entry is descended into (`rec` = the recursive call with the nesting
+level one deeper); an error of the descent ends the whole walk (`?`) -/
+def entryLoop (rec : Nat → Walk → R Unit × Walk) : List Bytes → Walk → R Unit × Walk
+  | [], w => (.ok (), w)
+  | e :: es, w =>
+    if Ent.isActive e ∧ Ent.storageType e = stSubDirEntry then
+      match rec (Ent.keyPtr e) w with
+      | (.ok _, w') => entryLoop rec es w'
+      | (.error err, w') => (.error err, w')
+    else entryLoop rec es w
+
+/-- `while curr>0 { reps += 1; if reps > MAX_DIRECTORY_REPS { return Err } … curr = dir.next() }` -/
+def blockLoop (r : Raw) (rec : Nat → Walk → R Unit × Walk) : Nat → Nat → Walk → R Unit × Walk
+  | _, 0, w => (.ok (), w)
+  | 0, _ + 1, w => (.error .endOfData, w)
+  | fuel + 1, curr + 1, w =>
+    match dirAt r (curr + 1) with
+    | .error e => (.error e, { w with reads := w.reads + 1 })
+    | .ok dir =>
+      match entryLoop rec (dirEntries dir) { w with reads := w.reads + 1 } with
+      | (.ok _, w') => blockLoop r rec fuel dir.next w'
+      | (.error e, w') => (.error e, w')
+
+/-- `tree_node` / `glob_node` with `depthLeft` nesting levels left before the cap (tree: 33 at the root, glob: 32) -/
+def walkNode (budget capErr : Bool) (r : Raw) (total : Nat) : Nat → Nat → Walk → R Unit × Walk
+  | 0, _, w => if capErr then (.error .endOfData, w) else (.ok (), w)
+  | depthLeft + 1, block, w =>
+    let w1 : Walk := { w with visits := w.visits + 1 }
+    if budget ∧ w1.visits > total then (.error .endOfData, w1)
+    else blockLoop r (walkNode budget capErr r total depthLeft) 100 block w1
+
+/-- `tree(include_meta, _)` (1098–1111): volume header (twice: `get_vol_header`, `find_dir_key_block("/")`), then the
+walk from the volume key block.  `entry.name()`, `meta_to_json()` are total. -/
+def tree (budget capErr : Bool) (r : Raw) : R Unit × Walk :=
+  match imgRead r volKeyBlock with
+  | .error e => (.error e, ⟨0, 0⟩)
+  | .ok _ => walkNode budget capErr r r.units.size 33 volKeyBlock ⟨0, 0⟩
+
+/-- `glob(pattern, _)` (1087–1097) for a pattern `globset` accepts: `curr_path` starts with the volume prefix, so the
+cap `curr_path.len() > MAX_DIRECTORY_DEPTH` leaves 32 levels -/
+def glob (budget capErr : Bool) (r : Raw) : R Unit × Walk :=
+  match imgRead r volKeyBlock with
+  | .error e => (.error e, ⟨0, 0⟩)
+  | .ok _ => walkNode budget capErr r r.units.size 32 volKeyBlock ⟨0, 0⟩
+
+/-! ### `read_file` with the `eof` accumulator of `read_index_block` (548–567), which the concrete model leaves out -/
+
+/-- the 256 pointer slots of one index block; `eof` is the running byte count.  `fixedEof = false`: as written,
+`bytes = entry.eof() - *eof` underflows once the running count has passed the recorded end of file. -/
+def indexLoopV (fixedEof : Bool) (entryEof : Nat) (ib : Bytes) : List Nat → Nat → M Nat
+  | [], eof => pure eof
+  | idx :: rest, eof =>
+    if eof + 512 > entryEof ∧ entryEof < eof ∧ !fixedEof then M.fail .panic
+    else
+      let bytes := if eof + 512 > entryEof then entryEof - eof else 512
+      let ptr := ib.getD idx 0 + 256 * ib.getD (idx + 256) 0
+      if ptr > 0 then do
+        let _ ← readBlock ptr
+        indexLoopV fixedEof entryEof ib rest (eof + bytes)
+      else indexLoopV fixedEof entryEof ib rest (eof + bytes)
+
+def indexBlockV (fixedEof : Bool) (entryEof indexPtr eof : Nat) : M Nat := do
+  let ib ← readBlock indexPtr
+  indexLoopV fixedEof entryEof ib (rng 0 256) eof
+
+def masterLoopV (fixedEof : Bool) (entryEof : Nat) (mb : Bytes) : List Nat → Nat → M Unit
+  | [], _ => pure ()
+  | idx :: rest, eof =>
+    let ptr := mb.getD idx 0 + 256 * mb.getD (idx + 256) 0
+    if ptr > 0 then do
+      let eof' ← indexBlockV fixedEof entryEof ptr eof
+      masterLoopV fixedEof entryEof mb rest eof'
+    else masterLoopV fixedEof entryEof mb rest (eof + 256 * 512)
+
+/-- `read_file(entry)` (615–651), outcome only -/
+def readFileV (fixedEof : Bool) (e : Bytes) : M Unit := do
+  let st := Ent.storageType e
+  if st = stSeedling then do
+    let _ ← readBlock (Ent.keyPtr e)
+    pure ()
+  else if st = stSapling then do
+    let _ ← indexBlockV fixedEof (Ent.eof e) (Ent.keyPtr e) 0
+    pure ()
+  else if st = stTree then do
+    let mb ← readBlock (Ent.keyPtr e)
+    masterLoopV fixedEof (Ent.eof e) mb (rng 0 256) 0
+  else M.fail .fileTypeMismatch
+
+/-- `get(path)` (1231–1241) -/
+def getV (fixedEof : Bool) (path : Bytes) : M Unit := do
+  let loc ← findFile path
+  let e ← readEntry loc
+  readFileV fixedEof e
+
+end Prodos
+
+/-! ## CP/M (`/repo/src/fs/cpm/mod.rs`, `directory.rs`) -/
+namespace Cpm
+open A2Verif.Fs.Cpm
+open A2Verif.Read.Cpm (Dpb)
+
+/-- outcome class of a CP/M-model result -/
+def cls {α : Type} : R α → Cls
+  | .ok _ => .ok
+  | .error .panic => .panic
+  | .error _ => .err
+
+/-- `Disk::test_img(img, dpb, cpm_vers)` (mod.rs 163–175): the inner `get_directory` answers `None` where
+`Fs.Cpm.getDirectory` (= the method with `expect`) answers panic; any error of `build_files` is "not CP/M".
+`error panic` = `build_files` itself panics (`Timestamp::get` indexing the directory). -/
+def testImg (d : Dpb) (r : Raw) : R Bool :=
+  match getDirectory d r with
+  | .error _ => .ok false
+  | .ok dir =>
+    match buildFiles d d.v3 dir with
+    | .ok _ => .ok true
+    | .error .panic => .error .panic
+    | .error _ => .ok false
+
+/-- `num_free_blocks` (mod.rs 199–214).  `fixed = false`: `user_blocks as u16 - used as u16` (underflow panics) =
+`Fs.Cpm.numFreeBlocks`; `fixed = true`: repair `c12fs-cpm-free-blocks-underflow` (`saturating_sub`). -/
+def numFreeBlocksV (fixed : Bool) (d : Dpb) (dir : Dir) : R Nat :=
+  let used := reservedBlocks d + ((usedPtrs d dir).filter (· > 0)).length
+  if used % 65536 > userBlocks d % 65536 then (if fixed then .ok 0 else .error .panic)
+  else .ok (userBlocks d % 65536 - used % 65536)
+
+/-- `stat()` (597–619): directory (with `expect`), label and user list (total), free blocks -/
+def statV (fixed : Bool) (d : Dpb) (r : Raw) : R Nat :=
+  match getDirectory d r with
+  | .error e => .error e
+  | .ok dir => numFreeBlocksV fixed d dir
+
+/-- `glob(pattern, _)` (652–670) for a pattern `globset` accepts: directory, `build_files(dpb, cpm_vers)` -/
+def globV (d : Dpb) (r : Raw) : R Unit :=
+  match getDirectory d r with
+  | .error e => .error e
+  | .ok dir =>
+    match buildFiles d d.v3 dir with
+    | .error e => .error e
+    | .ok _ => .ok ()
+
+/-- the loop of `read_file` (334–379).  `fixed = false`: `panic!("unreachable: extents were not sorted")` =
+`Fs.Cpm.readLoop`; `fixed = true`: repair `c12fs-cpm-overlapping-extents` (`BadFormat`). -/
+def readLoopV (fixed : Bool) (d : Dpb) (r : Raw) (dir : Dir) (finfo : FileInfo) : List (Nat × Nat) → Nat → Nat → Got → R Got
+  | [], _, _, g => .ok g
+  | (_, i) :: rest, bc, prev, g =>
+    match dir[i]? with
+    | none => .error .panic
+    | some fx =>
+      if !isExtent fx then readLoopV fixed d r dir finfo rest bc prev g else
+      let created := match finfo.createTime with
+        | some t => t
+        | none => match finfo.accessTime with
+          | some t => t
+          | none => g.created
+      let modified := match finfo.updateTime with
+        | some t => t
+        | none => g.modified
+      let g1 : Got := { g with fsType := (Ext.nameAndFlags fx).drop 8, access := Ext.nameAndFlags fx,
+                               eof := Ext.getEof fx % 4294967296, created := created, modified := modified }
+      let curr := Ext.dataPtr fx + 1
+      if curr = prev then .error .badFormat else
+      let lower := (curr - 1) / (d.exm + 1) * (d.exm + 1)
+      if lower < prev then (if fixed then .error .badFormat else .error .panic) else
+      let bc1 := bc + (lower - prev) * logicalExtentSize / blockSize d
+      match readPtrs d r (Ext.blockList d fx) bc1 g1.chunks with
+      | .error e => .error e
+      | .ok (bc2, cs) => readLoopV fixed d r dir finfo rest bc2 curr { g1 with chunks := cs }
+
+/-- `get(xname)` = `read_file` -/
+def getV (fixed : Bool) (d : Dpb) (r : Raw) (xname : Bytes) : R Got :=
+  match getDirectory d r with
+  | .error e => .error e
+  | .ok dir =>
+    match buildFiles d d.v3 dir with
+    | .error e => .error e
+    | .ok files =>
+      match getFile xname files with
+      | none => .error .fileNotFound
+      | some finfo =>
+        if !isXnameValid xname then .error .badFormat else
+        match stdAccessAndTyp xname with
+        | .error e => .error e
+        | .ok (access, fsType) =>
+          readLoopV fixed d r dir finfo finfo.entries 0 0
+            { access := access, fsType := fsType, eof := 0, created := [], modified := [], chunks := [] }
+
+end Cpm
 
 end A2Verif.C12FsId
